@@ -34,7 +34,7 @@ PROPS['C01'] = dict(
     level_note=('Trusted: the VC generator itself, z3, Lean+Mathlib, the by-inspection match between z3 postconditions and Lean hypothesis structures, value-class and '
                 'ownership assumptions of DESIGN section 2, injectivity of merged-state names rests on the proved contract of StateNamer._get (after fix 60ce915); '
                 'partial correctness only.'),
-    pyvc=fa('ENFA._get_next_states_iterable', 'ENFA.eclose', 'ENFA.eclose_iterable', 'ENFA.accepts', 'NFA.accepts', 'DFA.accepts',
+    pyvc=fa('ENFA.add_transitions', 'ENFA._get_next_states_iterable', 'ENFA.eclose', 'ENFA.eclose_iterable', 'ENFA.accepts', 'NFA.accepts', 'DFA.accepts',
             'ENFA.remove_epsilon_transitions', 'ENFA._to_deterministic_internal', 'ENFA.copy', 'ENFA.to_deterministic', 'NFA.to_deterministic', 'DFA.to_deterministic', 'DFA.copy',
             'ENFA.add_transition', 'ENFA.remove_transition', 'ENFA.add_start_state', 'ENFA.remove_start_state', 'ENFA.add_final_state', 'ENFA.remove_final_state',
             'ENFA.__call__', 'ENFA.is_final_state', 'ENFA.add_symbol', 'DFA.add_start_state', 'DFA.remove_start_state', 'NFA.add_transition')
